@@ -565,4 +565,8 @@ def corpus():
     C.append(GModel("AE", [("x", [0.7, 1.3], None), ("s", [0.4], None)], [("c", "plain", dict(value=[1.5, 0.5]))],
                     [("q_balance", "alg", ("sub", ("mul", ("powi", ("var", 0, ("w",)), 2), ("var", 1, ("w",))), ("par", 0, ("w",))), None),
                      ("e_balance", "alg", ("sub", ("mul", ("powi", ("var", 1, ("w",)), 3), ("var", 0, ("i", 0))), ("num", 1.0)), None)]))
+    # a time series written into one element of a vector parameter: the other elements are read from the mapping at every call
+    C.append(GModel("DAE", [("x", [0.7, 1.3, 0.2], None)],
+                    [("G", "ts_index", dict(value=[1.0, 0.5, 2.0], times=[0.0, 1.0, 2.0], series=[0.5, 1.5, 3.0], index=[1]))],
+                    [("f0", "ode", ("sub", ("par", 0, ("w",)), ("mul", ("var", 0, ("w",)), ("par", 0, ("i", 0)))), (0, ("w",)))]))
     return C
